@@ -975,6 +975,9 @@ inline:
 				continue
 			}
 		}
+		if infeasibleForConstArgs(r.Block(), x, fr) {
+			continue // this return sits behind `param == c` while the call passes another constant
+		}
 		t := ts.Of(r.Results[idx], nfr)
 		m[t.String()] = t
 	}
@@ -1851,4 +1854,67 @@ func passesThroughRead(f *ssa.Function, idx int) bool {
 		n++
 	}
 	return n > 0
+}
+
+// infeasibleForConstArgs: block b of the callee is dominated by a comparison of a parameter
+// with a constant that the constant argument of this call contradicts
+// (func (op opKind) settle(...) { if op == opBurn { … } … } called with opMint).
+func infeasibleForConstArgs(b *ssa.BasicBlock, call *ssa.Call, fr *Frame) bool {
+	f := b.Parent()
+	args := call.Common().Args
+	if call.Common().IsInvoke() {
+		return false
+	}
+	for _, df := range dominatingFacts(b) {
+		bo, ok := df.Cond.(*ssa.BinOp)
+		if !ok || (bo.Op != token.EQL && bo.Op != token.NEQ) {
+			continue
+		}
+		p, ok := bo.X.(*ssa.Parameter)
+		c, ok2 := bo.Y.(*ssa.Const)
+		if !ok || !ok2 || c.Value == nil {
+			continue
+		}
+		for i, q := range f.Params {
+			if q != p || i >= len(args) {
+				continue
+			}
+			ac := constThroughFrames(args[i], fr, 0)
+			if ac == nil || ac.Value == nil {
+				continue
+			}
+			equal := constant.Compare(ac.Value, token.EQL, c.Value)
+			want := df.Holds == (bo.Op == token.EQL) // the path needs param == c
+			if equal != want {
+				return true
+			}
+		}
+	}
+	return false
+}
+
+// constThroughFrames: the constant a value is on this call chain (a parameter bound to a
+// constant argument by a caller).
+func constThroughFrames(v ssa.Value, fr *Frame, d int) *ssa.Const {
+	if d > 8 {
+		return nil
+	}
+	switch x := v.(type) {
+	case *ssa.Const:
+		return x
+	case *ssa.Parameter:
+		if fr == nil || fr.Call == nil || fr.Call.Common().IsInvoke() {
+			return nil
+		}
+		for i, p := range x.Parent().Params {
+			if p == x && i < len(fr.Call.Common().Args) {
+				return constThroughFrames(fr.Call.Common().Args[i], argsFrame(fr), d+1)
+			}
+		}
+	case *ssa.ChangeType:
+		return constThroughFrames(x.X, fr, d+1)
+	case *ssa.Convert:
+		return constThroughFrames(x.X, fr, d+1)
+	}
+	return nil
 }
